@@ -13,7 +13,10 @@ TRUSTED = ['the model carries two interpreter limits explicitly (recursion depth
 
 def classify(x, err):
     if err == 'RecursionError':
-        return 'nesting-depth-over-recursion-limit'
+        # known finding: one Python frame per level of branch nesting; a level needs at least one branch symbol, so only inputs with about as many
+        # branch symbols as the recursion limit can belong to it - a RecursionError on anything shallower is a new violation
+        import sys
+        return 'nesting-depth-over-recursion-limit' if x.count('ranch') >= sys.getrecursionlimit() - 150 else None
     if err == 'ValueError' and max((len(m) for m in __import__('re').findall(r'\d+', x)), default=0) > 4300:
         return 'digit-run-over-int-limit'
     return None
